@@ -36,6 +36,15 @@ CLAIMED = {
  "C02": ("finite predicate abstraction with uninterpreted terms; extensional (256-value) evaluation of constant bit-mask code; error-discipline dominance rule",
          "Decides the structure of RFC 8032 signing and key derivation for all paths (all option combinations and variants): PrivateKey.Sign returns an error exactly under the specified conditions (invalid options, context over 255 bytes, bad pre-hash length or hash id, key length other than 64, entropy read failure, self-verification failure) and never a signature together with an error; on every success path the result is compress([r]B) followed by enc(k*a + r) where r and k are the wide reductions of SHA-512 over exactly dom2(variant) | digest[32:64] | M and dom2 | R | priv[32:64] | M, a = SetBits(clamp(digest[0:32])), the clamp being compared as a function on all 256 byte values with b&248 and (b&127)|64; with AddedRandomness the nonce hash must absorb the bytes read from the entropy source in addition to prefix and message (layout not frozen); newKeyFromSeed panics exactly on a wrong seed length and writes seed | compress([a]B). Byte-exact outputs and unforgeability are not decided.",
          "DESIGN.md §3 E-DT/E-SEQ, §4 C02", "infallible-operation assumptions are listed with reasons in props/c02.go", ["edt", "emod", "elen"]),
+ "C04": ("forward abstract interpretation of SSA with big-integer intervals of the mathematical value (128-bit accumulators as relational wide pairs); element-level bound propagation through callers",
+         "Decides the clause 'no intermediate quantity silently wraps a machine word' for the portable 64-bit and the 32-bit field back ends: stage A analyses every limb-level primitive of internal/field under the documented limb headroom (64-bit: limbs < 2^54; 32-bit: the exact bound under which 19*y fits 32 bits) and discharges an obligation for every +, *, <<, conversion, discarded carry / high word, (a+bias)-b subtraction and declared post-condition (wrapping idioms that are exact modulo 2^w are modelled, not flagged), and checks that the pre/post-conditions are closed under one further Add/Sub/Neg; stage B (thorough) propagates element-level bounds through all callers in internal/field/field.go, curve and internal/elligator and checks every primitive's pre-condition at every call. Positive controls at raised headroom must fail on every run. Functional exactness (which product term goes to which limb, canonicalisation) and the amd64/AVX2 assembly are not decided.",
+         "DESIGN.md §3 E-RANGE, §4 C04", "three callees are summarised (internal/subtle select/swap, encoding/binary accessors, fmt.Errorf); the assembly back ends are out of scope", ["erange"]),
+ "C05": ("exhaustive finite abstraction of the fast canonicity test (256 byte values x word orderings against L), decision tables, literal constants vs oracle",
+         "Decides completely that ScMinimalVartime accepts exactly the 32-byte strings whose little-endian value is below L: its paths are extracted with the loop unrolled and every consistent abstract input (the value of byte 31 x the three-way ordering of each 64-bit word against L's word, word 3 constrained by byte 31 through the numeric value of L; ~6900 inputs per configuration) is evaluated on the code's own conditions and compared with lexicographic <; any other length must give false; SetCanonicalBytes accepts exactly len = 32, bit 255 clear, IsCanonical; L, R, RR, LFACTOR in both radices, BASEPOINT_ORDER and the provenance of the comparison words are checked against the math/big oracle. Correctness of Montgomery multiplication/reduction mod L is not decided.",
+         "DESIGN.md §4 C05 (DT-S), §3 E-CONST", "the 32-bit scalar back end's overflow freedom is out of reach of intervals (Karatsuba wraps on purpose)", ["edt", "econst"]),
+ "C10": ("decision tables over uninterpreted terms, receiver-state rules on failing paths, error-discipline dominance rule, literal constants vs oracle",
+         "Decides the decision and term structure of the Edwards decoders and predicates: IsCanonicalVartime as a complete Boolean function of its byte tests against 'y < p and not an x=0 encoding with the sign bit set' (31-iteration scan fully unrolled, the two literal encodings checked by value); SetCompressedY fails exactly when the square-root flag is not 1, otherwise X = sqrt((y^2-1)/(d y^2+1)) conditionally negated by bit 255, Y, Z = 1, T = X*Y, and writes nothing to the receiver on failure; UnmarshalBinary (point and compressed point) errs exactly on a wrong length or a failed decode, resets the receiver to the identity before decoding and leaves exactly the identity after a failure; IsSmallOrder = IsIdentity(MulByCofactor), IsTorsionFree = IsIdentity(Mul by the group order), Equal is the conjunction of the two cross-products, MarshalBinary = compress; no failed check is followed by a success return in package curve. That SqrtRatioI and the field arithmetic compute the mathematical function is not decided.",
+         "DESIGN.md §4 C10", "term structure is compared with the RFC 8032 decoding recipe transcribed in props/c10.go", ["edt", "elen", "econst"]),
 }
 
 PENDING_REASON = "check under construction (DESIGN.md section 7 build order); not claimed yet"
